@@ -223,6 +223,79 @@ def release_wrappers(plug):
     return out
 
 
+def norm_param(p):
+    p = re.sub(r"\s+", " ", p.strip())
+    p = re.sub(r"\s+(size|file|line|mem|memory)$", "", p)       # drop the parameter name
+    p = re.sub(r"\s*([*&])\s*", r"\1", p)
+    return p
+
+
+def overload_forwarding(plug):
+    """every `operator new / new[] / delete / delete[]` defined in the file: signature key -> function pointer it forwards to"""
+    out = []
+    pat = re.compile(r"(void\s*\*|void)\s+operator\s+(new|delete)\s*(\[\s*\])?\s*\(([^)]*)\)[^{;]*\{([^{}]*)\}")
+    for m in pat.finditer(plug):
+        ret, kind, arr, params, body = m.groups()
+        ps = [norm_param(x) for x in params.split(",")]
+        key = "%s%s(%s)" % (kind, "[]" if arr else "", ",".join(ps))
+        b = norm(body)
+        if kind == "new":
+            mm = re.fullmatch(r"return(\w+)\((.*)\);", b)
+            if not mm or ret.replace(" ", "") != "void*":
+                raise TranslateError("operator %s: body not understood: %s" % (key, b))
+            args = mm.group(2)
+            if args not in ("size", "size,file,line", "size,file,(size_t)line"):
+                raise TranslateError("operator %s: arguments not understood: %s" % (key, args))
+            loc = args != "size"
+        else:
+            mm = re.fullmatch(r"(\w+)\(mem\);", b)
+            if not mm:
+                raise TranslateError("operator %s: body not understood: %s" % (key, b))
+            loc = False
+        if any(k == key for k, _, _ in out):
+            raise TranslateError("operator %s defined twice" % key)
+        out.append((key, mm.group(1), loc))
+    if len(out) < 10:
+        raise TranslateError("only %d operator new/delete overloads found" % len(out))
+    return out
+
+
+def fptr_table(plug, fn):
+    body = function_body(plug, r"void\s+MemoryLeakWarningPlugin::%s\s*\(\s*\)\s*\{" % fn)
+    out = []
+    body = "\n".join(l for l in body.split("\n") if not l.strip().startswith("#"))
+    for st in body.split(";"):
+        st = norm(st)
+        if not st:
+            continue
+        mm = re.fullmatch(r"(\w+_fptr)=(\w+)", st)
+        if not mm:
+            raise TranslateError("%s: statement not understood: %s" % (fn, st))
+        out.append((mm.group(1), mm.group(2)))
+    if len(out) != 11:
+        raise TranslateError("%s assigns %d function pointers (11 expected)" % (fn, len(out)))
+    return out
+
+
+def acquire_wrappers(plug, names):
+    out = []
+    for n in names:
+        body = function_body(plug, r"static\s+void\s*\*\s*%s\s*\([^)]*\)[^{;]*\{" % n)
+        stmts = [norm(x) for x in body.split(";") if norm(x)]
+        stmts = [x for x in stmts if x not in ("MemLeakScopedMutexlock", "UT_THROW_BAD_ALLOC_WHEN_NULL(memory)", "returnmemory")]
+        if len(stmts) != 1:
+            raise TranslateError("%s: statements not understood: %r" % (n, stmts))
+        mm = re.fullmatch(r"(?:void\*memory=|return)MemoryLeakWarningPlugin::getGlobalDetector\(\)->(allocMemory|reallocMemory)\((.*)\)", stmts[0])
+        if not mm:
+            raise TranslateError("%s: statement not understood: %s" % (n, stmts[0]))
+        kind, args = mm.groups()
+        m2 = re.fullmatch(r"(getCurrent\w+Allocator)\(\),(\(char\*\)memory,)?size(,file,line)?(,true|,false)?", args)
+        if not m2 or (kind == "reallocMemory") != bool(m2.group(2)):
+            raise TranslateError("%s: arguments not understood: %s" % (n, args))
+        out.append((n, m2.group(1), bool(m2.group(3)), m2.group(4) == ",true", kind == "reallocMemory"))
+    return out
+
+
 def lean_bool(b):
     return "true" if b else "false"
 
@@ -349,6 +422,21 @@ def extract():
 
     node_bytes = node_struct_bytes(hdr)
     wrappers = release_wrappers(plug)
+    overloads = overload_forwarding(plug)
+    plain_tab = fptr_table(plug, "turnOnDefaultNotThreadSafeNewDeleteOverloads")
+    ts_tab = fptr_table(plug, "turnOnThreadSafeNewDeleteOverloads")
+    rel_names = set(w[0] for w in wrappers)
+    acq_names = []
+    for _, fn in plain_tab + ts_tab:
+        if fn not in rel_names and fn not in acq_names:
+            acq_names.append(fn)
+    acquires = acquire_wrappers(plug, acq_names)
+    # malloc / realloc / free of C code reach the tables through these three functions
+    for fn, ptr in (("cpputest_malloc_location_with_leak_detection", "malloc_fptr"), ("cpputest_realloc_location_with_leak_detection", "realloc_fptr"),
+                    ("cpputest_free_location_with_leak_detection", "free_fptr")):
+        b = norm(function_body(plug, r"%s\s*\([^)]*\)\s*\{" % fn))
+        if not re.fullmatch(r"(return)?%s\((memory,)?(size|buffer),file,line\);" % ptr, b):
+            raise TranslateError("%s no longer forwards to %s: %s" % (fn, ptr, b))
 
     t = HEADER % ("translate/extract_leakdetector.py", ", ".join([SRC, HDR, TH, TMA, PLUG]))
     t += "namespace Gen.LeakDetector\n\n"
@@ -376,6 +464,24 @@ def extract():
     t += "def releaseWrappers : List ReleaseWrapper := [\n"
     t += ",\n".join('  { name := "%s", invalidateThenDealloc := %s, getter := "%s", withLocation := %s, separateNode := %s }'
                     % (n, lean_bool(a), g, lean_bool(b), lean_bool(c)) for n, a, g, b, c in wrappers)
+    t += "\n]\n\n"
+    t += "/-- every `operator new / new[] / delete / delete[]` defined in MemoryLeakWarningPlugin.cpp: signature, the function pointer it\n"
+    t += "    forwards to, whether it passes file/line on -/\n"
+    t += "structure Overload where\n  key : String\n  fptr : String\n  passesLocation : Bool\nderiving DecidableEq, Repr, Inhabited\n\n"
+    t += "def overloads : List Overload := [\n"
+    t += ",\n".join('  { key := "%s", fptr := "%s", passesLocation := %s }' % (k, f, lean_bool(l)) for k, f, l in overloads)
+    t += "\n]\n\n"
+    t += "/-- `turnOnDefaultNotThreadSafeNewDeleteOverloads`: function pointer := function -/\n"
+    t += "def plainTable : List (String × String) := [\n" + ",\n".join('  ("%s", "%s")' % x for x in plain_tab) + "\n]\n\n"
+    t += "/-- `turnOnThreadSafeNewDeleteOverloads` -/\n"
+    t += "def threadSafeTable : List (String × String) := [\n" + ",\n".join('  ("%s", "%s")' % x for x in ts_tab) + "\n]\n\n"
+    t += "/-- the acquiring functions behind the function pointers: current-allocator getter, passes file/line, separately\n"
+    t += "    allocated node, `reallocMemory` instead of `allocMemory` -/\n"
+    t += "structure AcquireWrapper where\n  name : String\n  getter : String\n  withLocation : Bool\n  separateNode : Bool\n  isRealloc : Bool\n"
+    t += "deriving DecidableEq, Repr, Inhabited\n\n"
+    t += "def acquireWrappers : List AcquireWrapper := [\n"
+    t += ",\n".join('  { name := "%s", getter := "%s", withLocation := %s, separateNode := %s, isRealloc := %s }'
+                    % (n, g, lean_bool(a), lean_bool(b), lean_bool(c)) for n, g, a, b, c in acquires)
     t += "\n]\n\nend Gen.LeakDetector\n"
     return t
 
